@@ -824,7 +824,8 @@ func c07scenario(name string, t int, pre []c07call, threads map[string]c07call, 
 			}
 		}
 		sort.Strings(tr)
-		return strings.Join(ks, ";") + "|" + strings.Join(tr, ";") + fmt.Sprintf("|i%d", len(d.in.internal))
+		extra := schedx.ExtraState(d.in.db, "mu", "internalSubs", "threshSubs", "entries", "keysByDuty", "threshold", "deadliner", "metadata")
+		return strings.Join(ks, ";") + "|" + strings.Join(tr, ";") + fmt.Sprintf("|i%d", len(d.in.internal)) + extra
 	}
 	sc.Outcome = func(x *schedx.Exec) string {
 		d := x.Data.(*c07bdata)
